@@ -32,7 +32,7 @@ from vgi_rpc.rpc import AuthContext
 
 MANIFEST = {
     "level_text": "Deductive proof over the real token code, for every identity pair, key, presented token, authenticated plaintext, clock reading and TTL: the cursor and call AADs are injective functions of the caller identity (anonymous | (domain, principal), NUL-free domains) and never coincide with each other; every mint site seals under the minting identity's AAD, the server key and the minting time; the openers return exactly the slices of the authenticated plaintext (headers = segment lengths, segments tile it), never raise anything but HTTP 400 on it, and accept only within the TTL; the packers produce created_at | call_id | (len, segment)* and unpack inverts pack, and that tiling is unique, so opening a genuine token returns the sealed fields and the minting time; the token is exactly base64 of the AEAD envelope; in _unpack_and_recover_state / _run_stream_exchange_sync every cache lookup, call-token open, deserialisation, bind_call_state, rehydrate, process, on_cancel and producer turn is preceded by a successful open of the cursor token under the server key, the request's own AAD and the configured TTL, cache.put only after the call ids matched; every rejection is HTTP 400; end to end (real /init shell then real /exchange shell, idealised AEAD) minted tokens reach user code only for the minting identity. Tests tamper a handful of bytes and replay across one other principal; the proof quantifies over all of them.",
-    "level_note": "Modulo the idealised AEAD contract (an envelope opens only under the normalised key and AAD it was sealed with; confidentiality assumed - the 'opaque' clause rests on it plus O9); base64/zstd round trips and totality, compare_digest == equality, injective UTF-8 encode and a whole-second clock are assumed. The envelope's version byte is NOT authenticated by the real crypto, so token-kind separation rests on the AADs (proved), not on versions; sticky-session tokens share key and AAD with cursor tokens and are separated only by that byte and payload framing (ASSUMPTIONS). The uniformity clause ('no detail distinguishing which check failed') is checked literally: on a tree whose 400 messages differ per check it is refuted (genuine finding, natively replayed).",
+    "level_note": "Modulo the idealised AEAD contract (an envelope opens only under the normalised key and AAD it was sealed with; confidentiality assumed - the 'opaque' clause rests on it plus O9); base64/zstd round trips and totality, compare_digest == equality, injective UTF-8 encode and a whole-second clock are assumed. The envelope's version byte is NOT authenticated by the real crypto, so token-kind separation rests on the AADs (proved), not on versions; sticky-session tokens share key and AAD with cursor tokens and are separated only by that byte and payload framing (ASSUMPTIONS). The uniformity clause ('no detail distinguishing which check failed') is checked literally: on a tree whose 400 messages differ per check it is refuted (genuine finding, natively replayed; on the pinned tree the six witness classes cursor/call x malformed_base64/expired, call:failed_authentication and cross_stream are recorded as known findings because the repository's own tests pin the message texts).",
     "technique": "contract-based deductive verification: path-wise postconditions on the real functions, string lemmas (z3 seq, cvc5 --strings-exp), tiling lemma over uninterpreted slices, ghost trace of open/lookup/deserialise/hook events, idealised AEAD as handlers over ghost state",
     "design_ref": "DESIGN.md §5 C12",
 }
@@ -1472,6 +1472,9 @@ def mint_then_exchange(S, shapes=("none", "dp"), vary=True, same_shape=False, on
     S.assume(And(nul_free(i1[1]), nul_free(i2[1])))
     app, key, ttl, impl = mk_dispatch_app(S)
     if vary:
+        for x in (i1[1], i1[2], i2[1], i2[2]):  # the many-request-shapes harness (C13) takes non-empty domains / principals:
+            if isinstance(x, SStr):  # the empty-string corner cases of the identity encoding are C12.L2/L8's, not the method binding's
+                S.assume(x.length() > 0)
         S.assume(ttl > 0)  # expiry configured (ttl = 0 only drops the created_at bookkeeping; halves the paths of the big harness)
     # ---- phase A: POST /m1/init as identity 1 (the real init shell and mint functions; sealing by contract)
     install_dispatch_world(S, app, a1)
